@@ -13,6 +13,11 @@
   `C01_norm_eq_mapR_canon` / `C01_file_norm_eq_mapR_canon` (what a round trip does, exactly), `C01_norm_close_full` /
   `C01_file_norm_close_full` (on strictly expressible content only the reals change), `C01_trunc_close` (by less than 10^-d).
 
+  `enc` and `dec` of `child` / `many` / `optional` share one tag string by construction, so a writer / reader tag mismatch is not
+  expressible in the model: that the CODE has no such mismatch is what the two-sided correspondence is for (model encode = the
+  real written tree, and independently model decode of the real file = the real reader's result) — `virtual` is the one place
+  where it found one, and the model has a dedicated codec for it (`virtualC`).
+
   Not covered by the theorems (trusted / sampled by the correspondence and the oracle): the byte level (XML escaping,
   `str(float)` / `float(str)`, `format(x, ".df")` and `np.format_float_positional` for reprs in exponent notation — parameters
   of the model; `str(int)` is `Int.repr`), `ScenarioID.from_benchmark_id ∘ str` (the benchmark id is a string here; C13),
